@@ -322,30 +322,37 @@ def loadSS (c : CI) : SSCfg × Bool :=
   | none => (⟨SecureServing.empty, none, none, none⟩, false)
   | some cfg => (cfg, true)
 
+/-- the client-CA block of `syncSecureServingConfigLocked`: the new (clientCA, verifyOptions) -/
+def ssClientCA (env : Env) (old : SSCfg) (new : SecureServing) : Except Err (Option Str × Option Str) :=
+  if old.secureServing.clientCAData ≠ new.clientCAData then          -- client ca data changed
+    if new.clientCAData.length = 0 then .ok (none, none)              -- clean verifyOptions
+    else
+      match env.parseCA new.clientCAData with
+      | none => .error Err.clientCA
+      | some id => .ok (some id, some id)
+  else .ok (old.clientCA, old.verifyOptions)
+
+/-- the key/cert block of `syncSecureServingConfigLocked`: the new certificate list -/
+def ssCerts (env : Env) (old : SSCfg) (new : SecureServing) : Except Err (Option Str) :=
+  if old.secureServing.keyData ≠ new.keyData ∨ old.secureServing.certData ≠ new.certData then   -- key or cert changed
+    if new.keyData.length = 0 ∨ new.certData.length = 0 then .ok none     -- either one missing: no certificate
+    else
+      match env.parsePair new.certData new.keyData with
+      | none => .error Err.keyPair
+      | some id => .ok (some id)
+  else .ok old.certs
+
 /-- `syncSecureServingConfigLocked`.  The first `Semantic.DeepEqual(oldCfg.secureServing, newSecureServing)`
-    compares a `*SecureServing` with a `SecureServing`: the types differ, it is never true. -/
-def syncSecureServing (env : Env) (c : CI) (new : SecureServing) : Except Err CI := do
+    compares a `*SecureServing` with a `SecureServing`: the types differ, it is never true.  Nothing is stored
+    unless both blocks succeed. -/
+def syncSecureServing (env : Env) (c : CI) (new : SecureServing) : Except Err CI :=
   let old := (loadSS c).1
-  let cfg0 : SSCfg := ⟨new, old.clientCA, old.certs, old.verifyOptions⟩
-  let cfg1 ←
-    if old.secureServing.clientCAData ≠ new.clientCAData then
-      if new.clientCAData.length = 0 then
-        pure { cfg0 with verifyOptions := none, clientCA := none }
-      else
-        match env.parseCA new.clientCAData with
-        | none => throw Err.clientCA
-        | some id => pure { cfg0 with verifyOptions := some id, clientCA := some id }
-    else pure cfg0
-  let cfg2 ←
-    if old.secureServing.keyData ≠ new.keyData ∨ old.secureServing.certData ≠ new.certData then
-      if new.keyData.length = 0 ∨ new.certData.length = 0 then
-        pure { cfg1 with certs := none }
-      else
-        match env.parsePair new.certData new.keyData with
-        | none => throw Err.keyPair
-        | some id => pure { cfg1 with certs := some id }
-    else pure cfg1
-  pure { c with ss := some cfg2 }
+  match ssClientCA env old new with
+  | .error e => .error e
+  | .ok (ca, vo) =>
+    match ssCerts env old new with
+    | .error e => .error e
+    | .ok certs => .ok { c with ss := some ⟨new, ca, certs, vo⟩ }
 
 /-- is the endpoint listed with `disabled: true` by some server entry -/
 def isDisabled (servers : List Server) (ep : Str) : Bool :=
